@@ -35,7 +35,7 @@ func (c12) Describe() CheckInfo {
 		},
 		RealCode:       []string{"gopatch main()/mainCmd.Run, preview/printComments, patch.Parse/File.Apply, pkg/diff, x/tools/imports, internal/*"},
 		Stubs:          []string{"package os (simulated filesystem, streams, exit)", "path/filepath walk", "io/ioutil"},
-		RequiredProbes: []string{"agree-inplace-vs-print", "agree-diff-applied", "agree-api", "agree-verbose", "description-on-stderr", "multi-file-print", "dry-fault-fired", "dry-kill", "dry-stdout-fail", "noncanonical-matched-file"},
+		RequiredProbes: []string{"agree-inplace-vs-print", "agree-diff-applied", "agree-api", "agree-verbose", "agree-refused-file", "description-on-stderr", "multi-file-print", "dry-fault-fired", "dry-kill", "dry-stdout-fail", "noncanonical-matched-file"},
 	}
 }
 
@@ -81,7 +81,21 @@ func (c12) Gen(env *Env, seed uint64, tier string, i int) *Case {
 			c.AddFile(fmt.Sprintf("%snm%d.go", dir, j), NonMatchingFile(r, style, ""), "nomatch", nil, style)
 		}
 	}
+	AddDecoys(c, r)
 	c.Flags = Flags{SkipImport: r.Chance(1, 3), SkipGen: r.Chance(1, 4)}
+	if sub == "agree" && r.Chance(1, 5) {
+		// a file whose rewrite is refused: every mode must refuse it alike
+		m := Misfits[r.Intn(len(Misfits))]
+		for i := range c.Patches {
+			if c.Patches[i].Via == "stdin" {
+				c.Patches[i].Via = "p"
+				c.Patches[i].Path = PatDir + "/p0.patch"
+				c.SetNode(world.NodeSpec{Path: c.Patches[i].Path, Kind: "file", Data: c.Patches[i].Data})
+			}
+		}
+		c.AddPatch("misfit.patch", c.Patches[0].Via, []byte(m.Patch(47)), nil, nil)
+		c.AddFile(r.Pick([]string{"a_mis.go", "mm_mis.go", "zz_mis.go"}), GenValidGoFile(r, GoFileOpts{Funcs: 1, Stmts: []string{m.Stmt(47)}}), "misfit", nil, m.Name)
+	}
 	if sub == "dry" {
 		switch r.Intn(3) {
 		case 0:
@@ -152,20 +166,31 @@ func c12Agree(env *Env, c *Case) []Violation {
 			return nil
 		}
 	}
-	if rw.Exit != 0 {
-		// rewrite failures are judged by C07/C16; agreement is defined for successful runs
+	final := goFiles(rw.Final)
+	sorted := c.SortedFiles()
+	// files whose rewrite in-place mode refused (reported and left untouched):
+	// every other mode must refuse them alike, i.e. emit nothing for them
+	failed := map[string]bool{}
+	for _, f := range sorted {
+		if rw.Exit != 0 && namesPath(c, string(rw.Stderr), f.Path) && bytes.Equal(final[f.Path].Data, orig[f.Path].Data) {
+			failed[f.Path] = true
+			env.Probe("agree-refused-file")
+		}
+	}
+	if rw.Exit != 0 && len(failed) == 0 {
+		// the run failed as a whole (patch did not load, ...): nothing to compare
 		env.Probe("inplace-run-failed")
 		return nil
 	}
-	final := goFiles(rw.Final)
-	sorted := c.SortedFiles()
 	env.Seen(c12Key(c, "agree"))
 	tag := "skipimp=" + fmt.Sprint(c.Flags.SkipImport)
 
 	// print-only == concatenation, in path order, of what in-place mode wrote
 	var want bytes.Buffer
 	for _, f := range sorted {
-		want.Write(final[f.Path].Data)
+		if !failed[f.Path] {
+			want.Write(final[f.Path].Data)
+		}
 		if f.Role == "match" && f.Note != "canonical" {
 			env.Probe("noncanonical-matched-file")
 		}
@@ -177,8 +202,8 @@ func c12Agree(env *Env, c *Case) []Violation {
 	if !bytes.Equal(rp.Stdout, want.Bytes()) {
 		add("print-vs-inplace", tag, fmt.Sprintf("--print-only stdout differs from the bytes written in place (concatenated in path order)\nprint-only: %q\nin-place:   %q", clip(string(rp.Stdout), 400), clip(want.String(), 400)))
 	}
-	if rp.Exit != 0 {
-		add("print-vs-inplace", "exit/"+tag, fmt.Sprintf("--print-only exit status %d while in-place mode succeeded", rp.Exit))
+	if (rp.Exit != 0) != (rw.Exit != 0) {
+		add("print-vs-inplace", "exit/"+tag, fmt.Sprintf("--print-only exit status %d but in-place mode exit status %d", rp.Exit, rw.Exit))
 	}
 	// --diff applied to the original == what in-place mode wrote
 	dfs, derr := ParseUnified(string(rd.Stdout))
@@ -200,6 +225,10 @@ func c12Agree(env *Env, c *Case) []Violation {
 			o := string(orig[f.Path].Data)
 			w := string(final[f.Path].Data)
 			df, has := bySec[f.Path]
+			if has && failed[f.Path] {
+				add("diff-vs-inplace", "section-for-refused-file/"+tag, fmt.Sprintf("in-place mode refuses to rewrite %s (%q) but --diff printed a diff for it", f.Path, clip(string(rw.Stderr), 200)))
+				continue
+			}
 			if !has {
 				if o != w {
 					add("diff-vs-inplace", "missing-section/"+tag, fmt.Sprintf("in-place mode changes %s but --diff printed nothing for it", f.Path))
@@ -219,12 +248,12 @@ func c12Agree(env *Env, c *Case) []Violation {
 				add("diff-vs-inplace", "differs/"+tag, fmt.Sprintf("applying the --diff output to %s gives %q, in-place mode wrote %q", f.Path, clip(got, 300), clip(w, 300)))
 			}
 		}
-		if rd.Exit != 0 {
-			add("diff-vs-inplace", "exit/"+tag, fmt.Sprintf("--diff exit status %d while in-place mode succeeded", rd.Exit))
+		if (rd.Exit != 0) != (rw.Exit != 0) {
+			add("diff-vs-inplace", "exit/"+tag, fmt.Sprintf("--diff exit status %d but in-place mode exit status %d", rd.Exit, rw.Exit))
 		}
 	}
 	// library API
-	if len(c.Patches) == 1 && !c.Flags.SkipImport && !c.Flags.SkipGen {
+	if len(c.Patches) == 1 && !c.Flags.SkipImport && !c.Flags.SkipGen && len(failed) == 0 {
 		ap, pres := ParseAPI(env.Prog, "p.patch", c.Patches[0].Data)
 		if ap != nil {
 			for _, f := range sorted {
@@ -234,6 +263,12 @@ func c12Agree(env *Env, c *Case) []Violation {
 					continue
 				}
 				env.Probe("agree-api")
+				if failed[f.Path] {
+					if !ares.IsErr {
+						add("api-vs-inplace", "accepts-refused", fmt.Sprintf("Apply(%s) succeeded although the CLI refuses to rewrite the file", f.Path))
+					}
+					continue
+				}
 				if ares.IsErr {
 					add("api-vs-inplace", "error", fmt.Sprintf("Apply(%s) returned error %q while the CLI patched the file", f.Path, ares.Err))
 				} else if !bytes.Equal(ares.Out, final[f.Path].Data) {
